@@ -249,7 +249,15 @@ func mergeStringMaps(src, dest map[string]any) {
 			}
 			continue
 		}
-		// Otherwise, set the value directly
+		// Otherwise, set the value directly. Nested maps are copied so that
+		// dest never shares them with src: a later merge into dest must not
+		// write through to the less specific level (and from there to its
+		// other descendants).
+		if srcMap, ok := srcValue.(map[string]any); ok {
+			if copied, err := deep.Copy(srcMap); err == nil {
+				srcValue = copied
+			}
+		}
 		dest[srcKey] = srcValue
 	}
 }
